@@ -369,13 +369,14 @@ def save_replay(ctx, name, payload):
 
 
 def write_evidence(ctx, coverage, assumptions, violations, level="proof"):
-    os.makedirs(os.path.join(VERIF, "evidence"), exist_ok=True)
+    evdir = os.environ.get("VERIF_EVIDENCE_DIR") or os.path.join(VERIF, "evidence")
+    os.makedirs(evdir, exist_ok=True)
     ev = {
         "property_id": ctx.prop, "tier": ctx.tier, "seed": ctx.seed, "level": level,
         "coverage": coverage, "assumptions": assumptions,
         "wall_s": round(time.time() - ctx.t0, 2), "violations": violations,
     }
-    p = os.path.join(VERIF, "evidence", ctx.prop + ".json")
+    p = os.path.join(evdir, ctx.prop + ".json")
     with open(p + ".tmp", "w") as f:
         json.dump(ev, f, indent=1, default=str)
     os.replace(p + ".tmp", p)
